@@ -256,7 +256,14 @@ def run_plz(bindir, cwd, args, seed, home, trace_path, policy="", choices=None, 
     except OSError:
         pass
     if r.exit == EXIT_DIVERGENCE:
-        raise Infra("replay divergence in %s: %s" % (cwd, r.sim_fail))
+        if os.environ.get("VERIF_STRICT_REPLAY"):
+            raise Infra("replay divergence in %s: %s" % (cwd, r.sim_fail))
+        # The recorded choice list no longer fits the code (it changed since the file was written):
+        # fall back to the recorded seed and policy, which is still one exactly repeatable execution.
+        print("note: recorded schedule diverged (%s); re-running from the recorded seed" % r.sim_fail, file=sys.stderr)
+        return run_plz(bindir, cwd, args, seed, home, trace_path, policy=policy, choices=None, stalls=stalls, num_stalls=num_stalls,
+                       horizon=horizon, faults=faults, env_extra=env_extra, timeout=timeout, max_steps=max_steps, extra_yields=extra_yields,
+                       gomaxprocs=gomaxprocs, multi=multi, multi_offsets=multi_offsets, binary=binary, test_name=test_name, extra_run=extra_run)
     if r.exit == EXIT_INTERNAL:
         raise Infra("simulator internal error in %s: %s" % (cwd, r.stderr[-2000:]))
     return r
